@@ -234,14 +234,21 @@ static void run_history(int family /*0 fast,1 HC*/, int nops, const char* mode, 
  * Block layout: [64 KB table: fixed keys + FIXED values][128 KB filler][64 KB table: same keys at the same places + FRESH values], so that a history
  * mapped 192 KB too low still matches (same keys, same fixed values) but the bytes really referenced differ.  Every phase-2 block is decoded with the
  * real decoder against the previous block (its declared history). */
-static void long_stream_renorm_scenario(void)
+static void long_stream_renorm_scenario_x(int withResets);
+static void long_stream_renorm_scenario(void) { long_stream_renorm_scenario_x(0); }
+/* withResets: the first gigabyte of index is accumulated by many short sessions separated by LZ4_resetStream_fast (the index survives a fast reset while it is
+ * below 1 GB), the second by one long session: the history of reuse that brings a long-lived context to the 2 GB index rescale */
+static void long_stream_renorm_scenario_x(int withResets)
 {
     enum { BIG = 4 << 20, BS = 256 << 10, TBL = 64 << 10, RECS = 2048 };
     LZ4_stream_t* fs = LZ4_createStream(); u8* big[2]; u8* blk[2]; u8* dst = xalloc((size_t)LZ4_compressBound(BIG)); u8* out = xalloc(BS);
     static u8 keys[RECS][8], fixedv[RECS][24]; unsigned long long fed = 0; int b, i, k, turn = 0; rec_t r;
     for (i = 0; i < RECS; i++) { for (k = 0; k < 8; k++) keys[i][k] = (u8)rnd(); for (k = 0; k < 24; k++) fixedv[i][k] = (u8)rnd(); }
     for (b = 0; b < 2; b++) { big[b] = xalloc(BIG); for (i = 0; i < BIG; i++) big[b][i] = (u8)("abcdefgh"[(i + b) & 7]); blk[b] = xalloc(BS); }
-    while (fed + BIG < 0x80000000ULL - (3u << 20)) { int c = LZ4_compress_fast_continue(fs, (const char*)big[turn], (char*)dst, BIG, LZ4_compressBound(BIG), 1); n_calls++; if (c <= 0) break; fed += BIG; turn ^= 1; }
+    while (fed + BIG < 0x80000000ULL - (3u << 20)) {
+        int c;
+        if (withResets && fed < (1000u << 20) && (fed / BIG) % 4 == 3) { LZ4_resetStream_fast(fs); n_resets++; fed += 65536; }   /* a fast reset advances the index by 64 KB */
+        c = LZ4_compress_fast_continue(fs, (const char*)big[turn], (char*)dst, BIG, LZ4_compressBound(BIG), 1); n_calls++; if (c <= 0) break; fed += BIG; turn ^= 1; }
     for (b = 0; b < 28; b++) {
         u8* cur = blk[b & 1]; const u8* prev = blk[(b & 1) ^ 1]; int c, d;
         for (i = 0; i < RECS; i++) { int q = (i + b) % RECS; memcpy(cur + 32 * i, keys[q], 8); memcpy(cur + 32 * i + 8, fixedv[q], 24); }   /* scrolled by one record per block: the previous block's copy is < 64 KB away */
@@ -370,6 +377,7 @@ int main(int argc, char** argv)
     for (i = 0; i < nh; i++) run_history(i % 2, 20 + (int)rndn(40), mode, dictbuf);
     if (!strcmp(mode, "c11")) for (i = 0; i < (thorough ? 3000 : 200); i++) ring_restart_scenario(i % 4 == 3);
     if (!strcmp(mode, "c11")) { int reps = thorough ? 3 : 1; while (reps--) long_stream_renorm_scenario(); }
+    if (!strcmp(mode, "c18")) long_stream_renorm_scenario_x(1);
     if (!strcmp(mode, "c11")) { long_stream_renorm_scenario_hc(thorough ? 2 : 3); if (thorough) { long_stream_renorm_scenario_hc(3); long_stream_renorm_scenario_hc(9); } }
     if (!strcmp(mode, "c18")) for (i = 0; i < (thorough ? 20000 : 1500); i++) fastreset_history();
     harness_done();
